@@ -139,6 +139,108 @@ func isPoint(sp []v2.Vec) bool {
 type bezStats struct {
 	lastInexact int // last vertex equal to the end control point only within rounding
 	verts       int
+	maxRound    float64 // largest observed |vertex - exact curve point| on an axis where nothing may be dropped, in units of 3^n 2^-53 max|control coordinate|
+	dropAxes    int     // span axes on which BezierPolynomial.Set may drop a coefficient (below 1e-12 of the coefficient sum)
+	optional    int     // spans that may be skipped as points (every non-constant coefficient below 1e-12 of the sum on both axes)
+}
+
+// Tolerance of one span, per axis.  The curve is judged against the exact rational de Casteljau
+// point with a tolerance made of two parts:
+//   - rounding: roundK 3^n 2^-53 max|x_i| (n = degree, x_i = the control coordinates on that axis;
+//     3^n = total weight of the control coordinates in the monomial coefficients, which is what the
+//     rounding of any float64 evaluation scheme is proportional to).  For a curve of extent E at
+//     offset O on that axis this is roundK 3^n 1.1e-16 (O/E) of the extent: the direct oracle has
+//     six digits of the extent at E/O = 1e-9, three at 1e-12 and nothing below about 1e-14.
+//   - what the claim concedes to BezierPolynomial.Set: a monomial coefficient below 1e-12 of the
+//     sum of |coefficients| of its axis may be dropped (it moves the curve by at most its own size
+//     on [0,1]); nothing else may.  A span all of whose non-constant coefficients may be dropped on
+//     both axes may be skipped as a point.
+//
+// roundK: a term-by-term bound of the rounding of Set's coefficient formulas followed by Horner's
+// rule on [0,1] is 10.4 of these units for a quartic (3.1 from the coefficients, 7.3 from Horner;
+// all roundings aligned and all control values +-max with alternating signs); the largest error
+// observed is reported in the coverage (about 1).
+const (
+	roundK  = 16
+	dropEps = 1e-12
+)
+
+type spanTol struct {
+	tx, ty       float64 // absolute tolerance per axis
+	rx, ry       float64 // rounding part alone (0 for an axis of zeros)
+	dropx, dropy bool    // a coefficient may be dropped on this axis
+	optional     bool    // may be skipped (ratio of every non-constant coefficient below 1.01e-12 on both axes)
+	nominalSkip  bool    // ... below 1e-12: what the code with epsilon = 1e-12 does
+}
+
+// monomial coefficients (exact) of the Bernstein form with control values x: c_j = C(n,j) sum_i (-1)^(i+j) C(j,i) x_i
+func monomial(x []float64) []*big.Rat {
+	n := len(x) - 1
+	binom := func(n, k int) int64 {
+		r := int64(1)
+		for i := 0; i < k; i++ {
+			r = r * int64(n-i) / int64(i+1)
+		}
+		return r
+	}
+	cs := make([]*big.Rat, n+1)
+	for j := 0; j <= n; j++ {
+		acc := new(big.Rat)
+		for i := 0; i <= j; i++ {
+			t := new(big.Rat).SetFloat64(x[i])
+			t.Mul(t, big.NewRat(binom(j, i), 1))
+			if (i+j)%2 == 1 {
+				t.Neg(t)
+			}
+			acc.Add(acc, t)
+		}
+		cs[j] = acc.Mul(acc, big.NewRat(binom(n, j), 1))
+	}
+	return cs
+}
+
+// axisTol returns the tolerance of one axis, whether a coefficient may be dropped, and the largest
+// ratio |c_j| / sum over the non-constant coefficients (0 when they all vanish)
+func axisTol(x []float64) (tol, round float64, drop bool, ratio float64) {
+	n := len(x) - 1
+	cs := monomial(x)
+	abs := make([]float64, len(cs))
+	sum, mx := 0.0, 0.0
+	for j, c := range cs {
+		f, _ := c.Float64()
+		abs[j] = math.Abs(f)
+		sum += abs[j]
+	}
+	for _, v := range x {
+		mx = math.Max(mx, math.Abs(v))
+	}
+	round = roundK * math.Pow(3, float64(n)) * 0x1p-53 * mx
+	tol = round
+	for j, a := range abs {
+		if a != 0 && a < 1.01*dropEps*sum {
+			tol += a
+			drop = true
+		}
+		if j > 0 && sum > 0 {
+			ratio = math.Max(ratio, a/sum)
+		}
+	}
+	return
+}
+
+func spanTolOf(sp []v2.Vec) spanTol {
+	xs, ys := make([]float64, len(sp)), make([]float64, len(sp))
+	for i, p := range sp {
+		xs[i], ys[i] = p.X, p.Y
+	}
+	var t spanTol
+	var qx, qy float64
+	t.tx, t.rx, t.dropx, qx = axisTol(xs)
+	t.ty, t.ry, t.dropy, qy = axisTol(ys)
+	q := math.Max(qx, qy)
+	t.optional = q < 1.01*dropEps
+	t.nominalSkip = q < dropEps
+	return t
 }
 
 // bezOracle returns the oracle stratum
@@ -153,18 +255,86 @@ func bezOracle(s bezSpec, vs []v2.Vec, outcome int, st *bezStats, viol violFn) s
 		return []string{"", "error", "panic"}[want]
 	}
 	var spans [][]v2.Vec
+	var tols []spanTol
+	var opt []int // indices (in spans) of the spans that may be skipped
 	for _, sp := range all {
 		if !isPoint(sp) {
-			spans = append(spans, sp)
+			t := spanTolOf(sp)
+			if t.optional {
+				opt = append(opt, len(spans))
+				st.optional++
+			}
+			if t.dropx {
+				st.dropAxes++
+			}
+			if t.dropy {
+				st.dropAxes++
+			}
+			spans, tols = append(spans, sp), append(tols, t)
 		}
 	}
+	// alternatives: which of the optional spans are skipped.  The first one is what a Set() with
+	// epsilon = 1e-12 does; its complaint is the one reported when no alternative is accepted.
+	pick := func(skip func(i int) bool) ([][]v2.Vec, []spanTol) {
+		var a [][]v2.Vec
+		var b []spanTol
+		for i := range spans {
+			if !(tols[i].optional && skip(i)) {
+				a, b = append(a, spans[i]), append(b, tols[i])
+			}
+		}
+		return a, b
+	}
+	type alt func(i int) bool
+	alts := []alt{func(i int) bool { return tols[i].nominalSkip }}
+	if len(opt) > 0 {
+		alts = append(alts, func(int) bool { return false }, func(int) bool { return true })
+		if len(opt) <= 4 {
+			for m := 1; m < 1<<len(opt)-1; m++ {
+				m := m
+				alts = append(alts, func(i int) bool {
+					for b, j := range opt {
+						if j == i {
+							return m>>b&1 == 1
+						}
+					}
+					return false
+				})
+			}
+		}
+	}
+	var first string
+	var name string
+	for k, a := range alts {
+		sp, tl := pick(a)
+		var sub bezStats
+		nm, msg := bezJudge(s, sp, tl, vs, &sub)
+		if k == 0 {
+			first, name = msg, nm
+		}
+		if msg == "" {
+			st.verts += sub.verts
+			st.lastInexact += sub.lastInexact
+			st.maxRound = math.Max(st.maxRound, sub.maxRound)
+			if len(opt) > 0 {
+				nm += "/optional-spans"
+			}
+			return nm
+		}
+	}
+	viol(first)
+	return name
+}
+
+// bezJudge checks the polyline against the given (non-skipped) spans; msg = "" when it is accepted
+func bezJudge(s bezSpec, spans [][]v2.Vec, tols []spanTol, vs []v2.Vec, st *bezStats) (name, msg string) {
 	if len(spans) == 0 {
 		if len(vs) != 0 {
-			viol("a curve whose spans are all points must produce no vertices")
+			return "allpoints", "a curve whose spans are all points must produce no vertices"
 		}
-		return "allpoints"
+		return "allpoints", ""
 	}
-	name := fmt.Sprintf("spans%d", len(spans))
+	name = fmt.Sprintf("spans%d", len(spans))
 	if len(spans) > 4 {
 		name = "spans5+"
 	}
@@ -173,78 +343,98 @@ func bezOracle(s bezSpec, vs []v2.Vec, outcome int, st *bezStats, viol violFn) s
 		pts = append(pts, sp...)
 	}
 	scale := maxAbs(pts...)
-	tol := 1e-9 * scale
 	q := len(spans)
 	m := len(vs) - 1
 	if m < 1 {
-		viol(fmt.Sprintf("%d vertices for %d curved spans", len(vs), q))
-		return name
+		return name, fmt.Sprintf("%d vertices for %d curved spans", len(vs), q)
 	}
 	for _, v := range vs {
 		if !finite(v) {
-			viol(fmt.Sprintf("non-finite vertex %v", v))
-			return name
+			return name, fmt.Sprintf("non-finite vertex %v", v)
 		}
 	}
 	st.verts += len(vs)
 	P0, Pn := spans[0][0], spans[q-1][len(spans[q-1])-1]
+	within := func(a, b v2.Vec, t spanTol) bool { return math.Abs(a.X-b.X) <= t.tx && math.Abs(a.Y-b.Y) <= t.ty }
+	off := func(a, b v2.Vec, t spanTol) string {
+		return fmt.Sprintf("off by (%.3g, %.3g), tolerance (%.3g, %.3g) = rounding of the control coordinates plus the coefficients below 1e-12 of the coefficient sum", a.X-b.X, a.Y-b.Y, t.tx, t.ty)
+	}
 	on := func(pos int, v v2.Vec) bool { // pos = span*512 + k, k in 0..512
 		i, k := pos/512, pos%512
 		if i == q {
 			i, k = q-1, 512
 		}
-		if !(norm(sub(deCasteljau(spans[i], float64(k)/512), v)) <= tol) {
+		t := tols[i]
+		// cheap filter: float64 de Casteljau (its own rounding: below 8 (n+1) 2^-53 of the axis scale, < the rounding part)
+		d := sub(deCasteljau(spans[i], float64(k)/512), v)
+		if !(math.Abs(d.X) <= t.tx+t.rx && math.Abs(d.Y) <= t.ty+t.ry) {
 			return false
 		}
+		x, y := deCasteljauRat(spans[i], k)
 		if s.Exact {
-			x, y := deCasteljauRat(spans[i], k)
 			return x.Cmp(new(big.Rat).SetFloat64(v.X)) == 0 && y.Cmp(new(big.Rat).SetFloat64(v.Y)) == 0
+		}
+		ex, _ := x.Sub(x, new(big.Rat).SetFloat64(v.X)).Float64()
+		ey, _ := y.Sub(y, new(big.Rat).SetFloat64(v.Y)).Float64()
+		ex, ey = math.Abs(ex), math.Abs(ey)
+		if !(ex <= t.tx && ey <= t.ty) {
+			return false
+		}
+		// measured rounding (reported in the coverage): only where the tolerance is far below the
+		// distance between neighbouring dyadic parameters, so that the parameter found is the true one
+		if !t.dropx && t.rx > 0 && t.rx <= 0x1p-20*extent(spans[i], 0) {
+			st.maxRound = math.Max(st.maxRound, ex/t.rx*roundK)
+		}
+		if !t.dropy && t.ry > 0 && t.ry <= 0x1p-20*extent(spans[i], 1) {
+			st.maxRound = math.Max(st.maxRound, ey/t.ry*roundK)
 		}
 		return true
 	}
 	// start and end exactly at the end control points
 	{
-		if vs[0] != P0 && (s.Exact || norm(sub(vs[0], P0)) > 1e-11*scale) {
-			viol(fmt.Sprintf("first vertex %v is not the first control point %v", vs[0], P0))
-			return name
+		if vs[0] != P0 && (s.Exact || !within(vs[0], P0, tols[0])) {
+			return name, fmt.Sprintf("first vertex %v is not the first control point %v (%s)", vs[0], P0, off(vs[0], P0, tols[0]))
 		}
 		if vs[m] != Pn {
-			if s.Exact || norm(sub(vs[m], Pn)) > 1e-11*scale {
-				viol(fmt.Sprintf("last vertex %v is not the last control point %v", vs[m], Pn))
-				return name
+			if s.Exact || !within(vs[m], Pn, tols[q-1]) {
+				return name, fmt.Sprintf("last vertex %v is not the last control point %v (%s)", vs[m], Pn, off(vs[m], Pn, tols[q-1]))
 			}
 			st.lastInexact++
 		}
 	}
 	if s.Closed && (s.Exact && vs[m] != vs[0] || norm(sub(vs[m], vs[0])) > 2e-9*math.Max(scale, 1)) {
-		viol(fmt.Sprintf("closed curve: last vertex %v differs from the first %v", vs[m], vs[0]))
-		return name
+		return name, fmt.Sprintf("closed curve: last vertex %v differs from the first %v", vs[m], vs[0])
 	}
 	// greedy recovery of strictly increasing parameters
 	pos := 0
 	if !on(0, vs[0]) {
-		viol("first vertex is not the curve point at parameter 0")
-		return name
+		return name, "first vertex is not the curve point at parameter 0"
 	}
 	hit := map[int]bool{0: true}
 	for j := 1; j <= m; j++ {
 		found := -1
-		for c := pos + 1; c <= q*512; c++ {
-			if on(c, vs[j]) {
+		// a straight span has nothing between its end points: where the tolerance does not separate
+		// the dyadic parameters of the segment any more, its end point is the reading to take
+		for c := pos + 1; found < 0 && c <= q*512; c++ {
+			if i := c / 512; i < q && c%512 != 0 && len(spans[i]) == 2 && on((i+1)*512, vs[j]) {
+				found = (i + 1) * 512
+			} else if on(c, vs[j]) {
 				found = c
-				break
 			}
 		}
 		if found < 0 {
-			viol(fmt.Sprintf("vertex %d = %v is not a point of the curve at any dyadic parameter beyond span %d, t = %d/512 (the parameter of the vertex before it): off the curve or out of order", j, vs[j], pos/512, pos%512))
-			return name
+			i := pos / 512
+			if i == q {
+				i = q - 1
+			}
+			return name, fmt.Sprintf("vertex %d = %v is not a point of the curve at any dyadic parameter beyond span %d, t = %d/512 (the parameter of the vertex before it): off the curve or out of order (tolerance of that span (%.3g, %.3g) = rounding of the control coordinates plus the coefficients below 1e-12 of the coefficient sum; extent of its control polygon (%.3g, %.3g))",
+				j, vs[j], pos/512, pos%512, tols[i].tx, tols[i].ty, extent(spans[i], 0), extent(spans[i], 1))
 		}
 		pos = found
 		hit[pos] = true
 	}
 	if !on(q*512, vs[m]) {
-		viol("last vertex is not the curve point at parameter 1 of the last span")
-		return name
+		return name, "last vertex is not the curve point at parameter 1 of the last span"
 	}
 	// every span boundary (end control point) is a vertex; straight spans have nothing in between
 	for i := 1; i < q; i++ {
@@ -256,19 +446,29 @@ func bezOracle(s bezSpec, vs []v2.Vec, outcome int, st *bezStats, viol violFn) s
 			}
 		}
 		if !ok {
-			viol(fmt.Sprintf("the polyline does not pass through the end control point between spans %d and %d", i-1, i))
-			return name
+			return name, fmt.Sprintf("the polyline does not pass through the end control point between spans %d and %d", i-1, i)
 		}
 	}
 	for i, sp := range spans {
 		if len(sp) == 2 {
 			for k := 1; k < 512; k++ {
 				if hit[i*512+k] {
-					viol(fmt.Sprintf("straight span %d is not reproduced by its two endpoints alone (extra vertex at t = %d/512)", i, k))
-					return name
+					return name, fmt.Sprintf("straight span %d is not reproduced by its two endpoints alone (extra vertex at t = %d/512)", i, k)
 				}
 			}
 		}
 	}
-	return name
+	return name, ""
+}
+
+func extent(sp []v2.Vec, axis int) float64 {
+	lo, hi := math.Inf(1), math.Inf(-1)
+	for _, p := range sp {
+		c := p.X
+		if axis == 1 {
+			c = p.Y
+		}
+		lo, hi = math.Min(lo, c), math.Max(hi, c)
+	}
+	return hi - lo
 }
